@@ -22,6 +22,14 @@ open Rxn Rxn.Sst Rxn.Wal
 /-- the fields package is little-endian throughout (the model's `leBytes`/`leVal` are tied to it) -/
 theorem fields_little_endian : Facts.fieldsLittleEndian = 1 := by decide
 
+/-- lock shape behind the model's atomic WAL steps: `Cut`, `Truncate`, `Rotate` run entirely under `w.mu` (only the
+sealed check precedes the lock) and `Put`/`Delete` never touch the segment list (structural fact, hard obligation) -/
+theorem wal_lock_shape : Facts.walMuCoversSegments = 1 := by decide
+
+/-- `ensureMetadataLoaded` sets `metadataLoaded` only after `loadFooter` returned, inside one critical section that
+lasts to the end of the body: a second first reader waits and then sees the loaded metadata (structural fact) -/
+theorem table_metadata_load_shape : Facts.sstMetaLoadUnderLock = 1 := by decide
+
 /-- `TableDocument` has the fields, order and types (`[]byte` keys, no tags) that `jsonDoc` writes -/
 theorem document_shape : Facts.sstDocShape = 1 := by decide
 
@@ -185,15 +193,24 @@ theorem wal_codec (e : Rec) (h : e.WF) (rest : Bytes) : decRec (encRec e ++ rest
 /-- `Reader.All` on a file of records with consecutive sequence numbers `f, f+1, …`: exactly the records after
 the start marker, in order (deletes without value and sequence number, as the code yields them) -/
 theorem wal_reader_after (f : Nat) (e : Rec) (es : List Rec) (hwf : ∀ x ∈ e :: es, x.WF) (hc : Consecutive f (e :: es))
-    (after : Nat) (hlo : f ≤ after + 1) (hhi : after + 1 ≤ f + (e :: es).length) :
+    (after : Nat) (hlo : f ≤ after + 1) (hhi : after + 1 ≤ f + (e :: es).length) (hw : after + 1 < seqMod) :
     readAll (encRecs (e :: es)) after = .ok (((e :: es).filter (fun x => decide (after < x.seq))).map Rec.toRead) := by
   have hf : e.seq = f := hc.1
-  rw [readAll_encRecs e es hwf after (by omega) (by omega), hf, drop_eq_filter f (e :: es) hc after]
+  rw [readAll_encRecs e es hwf after hw (by omega) (by omega), hf, drop_eq_filter f (e :: es) hc after]
 
 /-- a start marker more than one below the first record of the file is refused (the records in between are gone) -/
 theorem wal_reader_gap (e : Rec) (es : List Rec) (he : e.WF) (after : Nat) (h : after + 1 < e.seq) :
     readAll (encRecs (e :: es)) after = .panic :=
-  readAll_panic e es he after h
+  readAll_panic e es he after (Nat.lt_of_le_of_lt (Nat.mod_le _ _) h)
+
+/-- the marker arithmetic wraps like the Go type: the largest marker `seqMod − 1` is refused by every file that does
+not start at sequence number 0 (`startAfter + 1` is 0); this is why the replay theorems assume `after + 1 < seqMod` -/
+theorem wal_reader_marker_wraps (e : Rec) (es : List Rec) (he : e.WF) (h : 0 < e.seq) :
+    readAll (encRecs (e :: es)) (seqMod - 1) = .panic := by
+  apply readAll_panic e es he
+  have : seqMod - 1 + 1 = seqMod := by have : 0 < seqMod := by decide
+                                       omega
+  rw [this, Nat.mod_self]; exact h
 
 /-- writer bookkeeping for every history of put/delete/cut/truncate/rotate (sequence numbers never decreasing):
 what a save contains is a suffix of everything appended, and every record newer than all truncations is in it -/
@@ -206,10 +223,11 @@ theorem wal_writer_retains (ops : List Op) (id m : Nat) (hmono : MonoSeqs 0 ops)
 that is at least every truncation replays exactly the appended operations after the marker -/
 theorem wal_replay (ops : List Op) (id m f after : Nat)
     (hmono : MonoSeqs 0 ops) (hcons : Consecutive f (appended ops)) (hwf : ∀ e ∈ appended ops, e.WF)
-    (hT : maxTrunc ops ≤ after) (hlo : f ≤ after + 1) (hhi : after + 1 ≤ f + (appended ops).length) :
+    (hT : maxTrunc ops ≤ after) (hlo : f ≤ after + 1) (hhi : after + 1 ≤ f + (appended ops).length)
+    (hw : after + 1 < seqMod) :
     readAll ((Writer.new id m).run ops).save after
       = .ok (((appended ops).filter (fun e => decide (after < e.seq))).map Rec.toRead) :=
-  replay_after ops id m f after hmono hcons hwf hT hlo hhi
+  replay_after ops id m f after hmono hcons hwf hT hlo hhi hw
 
 /-- a sealed writer is immutable: the writer rotated away after `ops₁` is what those operations built, at the same
 position and with the same content after ANY later history `ops₂` of its successors — so the bytes `Save` writes for
@@ -229,7 +247,8 @@ theorem wal_sealed_writer_immutable (id m : Nat) (ops₁ ops₂ : List Op) :
 before the `Rotate` and after the marker -/
 theorem wal_late_save_replay (ops₁ ops₂ : List Op) (id m f after : Nat)
     (hmono : MonoSeqs 0 ops₁) (hcons : Consecutive f (appended ops₁)) (hwf : ∀ e ∈ appended ops₁, e.WF)
-    (hT : maxTrunc ops₁ ≤ after) (hlo : f ≤ after + 1) (hhi : after + 1 ≤ f + (appended ops₁).length) :
+    (hT : maxTrunc ops₁ ≤ after) (hlo : f ≤ after + 1) (hhi : after + 1 ≤ f + (appended ops₁).length)
+    (hw : after + 1 < seqMod) :
     let l := (Log.new id m).run (ops₁ ++ Op.rotate :: ops₂)
     let k := ((Log.new id m).run ops₁).sealed.length
     (l.sealed[k]?).map (fun w => readAll w.save after)
@@ -238,7 +257,7 @@ theorem wal_late_save_replay (ops₁ ops₂ : List Op) (id m f after : Nat)
   have h := sealed_writer_immutable id m ops₁ ops₂
   show (l.sealed[k]?).map (fun w => readAll w.save after) = _
   rw [h]
-  exact congrArg some (replay_after ops₁ id m f after hmono hcons hwf hT hlo hhi)
+  exact congrArg some (replay_after ops₁ id m f after hmono hcons hwf hT hlo hhi hw)
 
 /-! ## regression witness of D27 and non-vacuity -/
 
